@@ -76,6 +76,12 @@ claim('C11', 'interprocedural ownership/origin analysis of every write on the si
       '(hex sha256 of every chain certificate, signing time); digest pinning on the very string resolved, reserved-prefix and existing-key refusals and the merge error gate precede Sign; the repository is used for exactly one Resolve and one PushSignature. '
       'Necessary conditions for "signing twice succeeds twice" for every descriptor, metadata map and reference; repository and signer internals are trusted.', 'DESIGN.md 2/C11')
 
+claim('C12', 'panic-site inventory with local discharge proofs (guards, filter/producer summaries, correlated nil-check tracking) + outcome/error consistency + size-cap gates + error-discipline lint',
+      'Static: every non-comma-ok type assertion, slice/string index and slice expression, dereference of the nilable-by-API pointers, call through a nilable verifier field, MustCompile, map update and explicit panic in the product packages is '
+      'enumerated and discharged by a proof visible in the code (dominating guard, loop induction over the same/equal-length slice, producer filter summary, constructor post-condition) or by a table line with reason; the two verifier methods '
+      'return (outcome, nil) only on paths no error store reaches and otherwise the error just stored; every FetchAll is cut by a positive cap on the descriptor fetched; no decoder error is dropped. '
+      'Covers the enumerated panic classes of the module\'s own code for all inputs and configurations; panics and allocations inside dependencies are not analysed.', 'DESIGN.md 2/C12')
+
 NA_REASON = {}
 
 def main():
